@@ -239,6 +239,50 @@ fn run_bench_with(fast: bool) -> Result<u64, String> {
     Err(format!("bench printed no node total (exit {:?})", out.status.code()))
 }
 
+/// `go depth 6` on a middlegame position in a fresh process whose address space is capped at
+/// `cap_kb` (None: no cap). Some((best, nodes of the last report)) if the search finished; None if
+/// the process died (a process that cannot get memory may die - it may not answer differently).
+fn capped_search(cap_kb: Option<u64>) -> Option<(String, String)> {
+    use std::io::Write;
+    let exe = super::uciproc::engine_path();
+    let script = match cap_kb {
+        Some(k) => format!("ulimit -v {k}; exec '{}'", exe.display()),
+        None => format!("exec '{}'", exe.display()),
+    };
+    let mut child = std::process::Command::new("sh")
+        .arg("-c")
+        .arg(script)
+        .stdin(std::process::Stdio::piped())
+        .stdout(std::process::Stdio::piped())
+        .stderr(std::process::Stdio::null())
+        .spawn()
+        .ok()?;
+    {
+        let mut si = child.stdin.take()?;
+        let _ = si.write_all(b"position fen r3k2r/p1ppqpb1/bn2pnp1/3PN3/1p2P3/2N2Q1p/PPPBBPPP/R3K2R w KQkq - 0 1\ngo depth 6\n");
+        // the engine answers when the depth is reached; quit follows once the answer is there or the process is gone
+        let out = child.stdout.take()?;
+        let mut best = None;
+        let mut nodes = String::new();
+        for l in std::io::BufRead::lines(std::io::BufReader::new(out)).map_while(Result::ok) {
+            if l.starts_with("info depth") {
+                let t: Vec<&str> = l.split_whitespace().collect();
+                if let Some(k) = t.iter().position(|x| *x == "nodes") {
+                    nodes = t.get(k + 1).copied().unwrap_or("").to_string();
+                }
+            }
+            if let Some(m) = l.strip_prefix("bestmove ") {
+                best = Some(m.trim().to_string());
+                break;
+            }
+        }
+        let _ = si.write_all(b"quit\n");
+        drop(si);
+        let _ = child.wait();
+        best.map(|b| (b, nodes))
+    }
+}
+
 fn run_bench() -> Result<u64, String> {
     run_bench_with(false)
 }
@@ -300,6 +344,31 @@ pub fn run(args: &Args) -> i32 {
             obj(vec![("kind", s("bench"))]),
         );
     }
+    // the environment as an input: the same search in processes with less and less memory. A
+    // process may die; one that answers must answer exactly like the uncapped one.
+    let mut capped_runs = 0u64;
+    let mut capped_answers = 0u64;
+    if let Some(free) = capped_search(None) {
+        let caps: Vec<u64> = (0..24).map(|k| 6_000 + 500 * k).collect();
+        let results: Vec<(u64, Option<(String, String)>)> = std::thread::scope(|sc| {
+            let hs: Vec<_> = caps.iter().map(|c| sc.spawn(move || (*c, capped_search(Some(*c))))).collect();
+            hs.into_iter().map(|h| h.join().unwrap()).collect()
+        });
+        for (cap, r) in results {
+            capped_runs += 1;
+            if let Some(r) = r {
+                capped_answers += 1;
+                if r != free {
+                    sink.report(
+                        "memcap".into(),
+                        format!("'go depth 6' on kiwipete in a process with its address space capped at {cap} kB answers ({} {} nodes), without the cap ({} {} nodes)", r.0, r.1, free.0, free.1),
+                        obj(vec![("kind", s("memcap")), ("cap_kb", i(cap))]),
+                    );
+                    break;
+                }
+            }
+        }
+    }
     let sum = merged.get("bench_position_nodes");
     if merged.get("bench_positions") as usize == bench_fens().len() && totals.first().is_some_and(|t| *t != sum) {
         sink.report(
@@ -322,6 +391,8 @@ pub fn run(args: &Args) -> i32 {
             ("searches_right_after_a_search_of_an_ancestor_position".into(), i(merged.get("searches_after_a_search_of_an_ancestor"))),
             ("process_preamble_searches_white_or_black_first_by_process".into(), i(merged.get("process_preamble_searches"))),
             ("bench_runs".into(), i(totals.len() as u64)),
+            ("memory_capped_processes".into(), i(capped_runs)),
+            ("memory_capped_processes_that_answered".into(), i(capped_answers)),
             ("bench_run_under_200x_clock".into(), J::Bool(shim)),
             ("bench_positions_recomputed".into(), i(merged.get("bench_positions"))),
             ("sampled_dimensions".into(), s("hash seeds of std containers and OS scheduling: 3 processes per pair under full CPU load; these two dimensions are sampled, everything else is enumerated")),
@@ -333,6 +404,13 @@ pub fn run(args: &Args) -> i32 {
 
 pub fn replay(doc: &J) -> i32 {
     let Some(r) = doc.get("replay") else { return 2 };
+    if r.get("kind").and_then(|x| x.str()) == Some("memcap") {
+        let cap = r.get("cap_kb").and_then(|x| x.int()).unwrap_or(9000) as u64;
+        let free = capped_search(None);
+        let capped = capped_search(Some(cap));
+        println!("uncapped: {free:?}; capped at {cap} kB: {capped:?}");
+        return i32::from(capped.is_some() && capped != free);
+    }
     if r.get("kind").and_then(|x| x.str()) == Some("bench") {
         let a = run_bench();
         let b = run_bench_with(true);
